@@ -254,6 +254,69 @@ def check_point(case):
     return out, indet, converged
 
 
+def check_book(model):
+    """The builders' own book configuration (use_book_exogenous=True) against the closed form fed with the book's inputs."""
+    case = {'model': 'BOOK', 'builder': model, 'horizon': 14}
+    n = 14
+    try:
+        if model == 'SIM':
+            m = SIM('C1').build_model()
+        elif model == 'SIMEX1':
+            m = SIMEX1('C1').build_model()
+        else:
+            m = PC('C1').build_model()
+        m.MaxTime = n
+        m.EquationSolver.MaxIterations = 100000
+        m.EquationSolver.ParameterErrorTolerance = 1e-12
+        m.main()
+    except Exception as e:
+        return [core.violation('model-fails:book-%s:%s' % (model, type(e).__name__), '%s raised %r' % (model, e), case)], 0
+    g = m.GetTimeSeries
+    G_sim = lambda k: Fr(0) if k == 0 else Fr(20)
+    if model == 'SIM':
+        ser = {'Y': g('GOOD__SUP_GOOD'), 'T': g('GOV__T'), 'YD': g('HH__AfterTax'), 'C': g('HH__DEM_GOOD'), 'H': g('HH__F')}
+        closed = sim_closed(Fr('0.6'), Fr('0.4'), Fr('0.2'), G_sim, Fr(0), n)
+    elif model == 'SIMEX1':
+        ser = {'Y': g('GOOD__SUP_GOOD'), 'T': g('GOV__T'), 'YD': g('HH__AfterTax'), 'C': g('HH__DEM_GOOD'), 'H': g('HH__F')}
+        closed = simex_closed(Fr('0.6'), Fr('0.4'), Fr('0.2'), G_sim, Fr(0), Fr(16), n)
+    else:
+        ser = {'Y': g('GOOD__SUP_GOOD'), 'T': g('TRE__T'), 'YD': g('HH__AfterTax'), 'C': g('HH__DEM_GOOD'), 'H': g('HH__F'),
+               'B': g('HH__DEM_DEP'), 'M': g('HH__DEM_MON')}
+        R = lambda k: Fr('0.025') if k < 10 else Fr('0.035')
+        closed = pc_closed(Fr('0.6'), Fr('0.4'), Fr('0.2'), Fr('0.635'), Fr(5), Fr('0.01'), lambda k: Fr(20), R, Fr('86.486'), Fr('64.865'), n)
+    v, indet = judge(ser, closed, 1e-8, 1e-6, case, 'book-' + model)
+    return ([v] if v else []), indet
+
+
+def check_iterative_method2(case):
+    """The alternative step method of the hand-coded model (RunMethod2: fixed-point iteration of the whole vector)."""
+    o = ModelSIMiterative()
+    o.theta, o.alpha1, o.alpha2 = case['th'], case['a1'], case['a2']
+    n = case['horizon']
+    G = GPATHS[case['G']]
+    o.G = [float(G(k)) for k in range(n + 1)]
+    o.H = [float(case['H0'])]
+    try:
+        for k in range(n):
+            o.RunMethod2()
+    except Exception as e:
+        return [core.violation('iterative-sim-method2-raises:' + type(e).__name__, 'RunMethod2 raised %r' % (e,), case)], 0
+    closed = sim_closed(Fr(repr(case['a1'])), Fr(repr(case['a2'])), Fr(repr(case['th'])), G, Fr(repr(float(case['H0']))), n)
+    ser = {'Y': o.Y, 'T': o.tax, 'YD': o.YD, 'C': o.C, 'H': o.H}
+    indet = 0
+    for k, row in enumerate(closed, start=1):
+        for name, want in row.items():
+            if len(ser[name]) <= k:
+                return [core.violation('iterative-sim-method2:wrong-length', '%s has %d values after %d steps' % (name, len(ser[name]), n), case)], indet
+            d = abs(ser[name][k] - float(want))
+            if d <= 0.05:
+                continue
+            if d >= 0.5:
+                return [core.violation('recursion-violated:iterative-SIM-method2:' + name, 'period %d: %s = %r, closed form %r' % (k, name, ser[name][k], float(want)), case)], indet
+            indet += 1
+    return [], indet
+
+
 def check_iterative(case):
     o = ModelSIMiterative()
     o.theta, o.alpha1, o.alpha2 = case['th'], case['a1'], case['a2']
@@ -313,10 +376,22 @@ def run_unit(unit, tier):
             case = {'model': 'ITER', 'a1': a1, 'a2': a2, 'th': th, 'G': G, 'H0': H0, 'horizon': unit['horizon']}
             dig.add(sorted(case.items()))
             viols, indet = check_iterative(case)
+            if a1 * (1 - th) <= 0.6:      # the whole-vector iteration of RunMethod2 is capped at 100 sweeps
+                v2, i2 = check_iterative_method2(dict(case, method='RunMethod2'))
+                viols = viols + v2
+                indet += i2
             res['evaluations'] += 1
             res['nontrivial'] += 1
             res['indeterminate'] += indet
             core.bump(res['outcomes'], 'ITER:' + ('ok' if not viols else 'violation'))
+            res['violations'].extend(viols)
+        for model in ('SIM', 'SIMEX1', 'PC'):
+            dig.add(('book', model))
+            viols, indet = check_book(model)
+            res['evaluations'] += 1
+            res['nontrivial'] += 1
+            res['indeterminate'] += indet
+            core.bump(res['outcomes'], 'BOOK-%s:%s' % (model, 'ok' if not viols else 'violation'))
             res['violations'].extend(viols)
         res['samples'] = [{'model': 'ModelSIMiterative', 'grid': 'alpha1 x alpha2 x theta x G x H0'}]
     if fam == 'SIM':
@@ -350,6 +425,10 @@ def run_unit(unit, tier):
 
 
 def replay(case):
+    if case['model'] == 'BOOK':
+        return check_book(case['builder'])[0][:1]
+    if case['model'] == 'ITER' and case.get('method') == 'RunMethod2':
+        return check_iterative_method2(case)[0][:1]
     if case['model'] == 'PAIR':
         return check_pair(case)[0][:1]
     if case['model'] == 'ITER':
